@@ -627,16 +627,7 @@ class ExprMixin(object):
 
     def getattr_kind(self, st, base, name, kind, a, classes, line):
         if kind == 'field':
-            missing = [d for d in classes if not self.class_has_attr(d, name) and d not in (list, tuple, dict, set)]
-            if missing and len(missing) < len(set(classes)) or (missing and all(issubclass(d, tuple(missing)) for d in classes)):
-                subs = []
-                for d in missing:
-                    subs.extend(UNIVERSE.subclasses(d))
-                subs = [d for d in dict.fromkeys(subs) if not self.class_has_attr(d, name)]
-                if subs:
-                    self.raise_exit(st, AttributeError,
-                                    Or(*[cls_of(Val.r(base.t)) == UNIVERSE.cid(d) for d in subs]), line)
-            return self.load_field(st, base, name, [d for d in classes if d not in missing] or classes)
+            return self.load_field(st, base, name, classes, line)
         if kind == 'property':
             if a.fget is None:
                 raise EngineError('write-only property')
@@ -654,9 +645,28 @@ class ExprMixin(object):
                 return self.lift(val)
         raise EngineError('attr kind ' + kind)
 
-    def load_field(self, st, base, name, classes):
+    def load_field(self, st, base, name, classes, line=0):
         r = Val.r(base.t)
         t = self.load(st, r, name)
+        if classes:
+            # attribute presence: objects of classes that do not define the attribute start without it
+            # (value Absent); a store creates it.  Reading an absent attribute raises AttributeError.
+            subs = []
+            for c in classes:
+                subs.extend(UNIVERSE.subclasses(c) or [c])
+            subs = list(dict.fromkeys(subs))
+            missing = [d for d in subs if d not in (list, tuple, dict, set) and not self.class_has_attr(d, name)]
+            h0 = z3.Select(self.init_arr(name), r)
+            if missing:
+                self.assumes.append(z3.Implies(And(r <= self.alloc0, Or(*[cls_of(r) == UNIVERSE.cid(d) for d in missing])),
+                                               h0 == ABSENT))
+                self.assumes.append(z3.Implies(r > self.alloc0, h0 == ABSENT))
+                having = [d for d in subs if d not in missing]
+                spec0 = field_spec(having, name) if having else None
+                if spec0 is not None and having:
+                    self.assume(st, z3.Implies(Or(*[cls_of(r) == UNIVERSE.cid(d) for d in having]), spec0.assumption(t)))
+                self.raise_exit(st, AttributeError, t == ABSENT, line)
+                classes = having or classes
         spec = field_spec(classes, name) if classes else None
         if spec is not None:
             self.assume(st, spec.assumption(t))
